@@ -56,6 +56,7 @@ func cmdSigning(args []string) error {
 	r := newRng(*seed)
 	cap := &capture{}
 	var redirectTo string
+	redirectCode := http.StatusTemporaryRedirect
 	srv := httptest.NewServer(http.HandlerFunc(func(w http.ResponseWriter, req *http.Request) {
 		body, _ := io.ReadAll(req.Body)
 		cap.mu.Lock()
@@ -66,7 +67,7 @@ func cmdSigning(args []string) error {
 		cap.mu.Unlock()
 		if rt != "" {
 			w.Header().Set("Location", rt)
-			w.WriteHeader(http.StatusTemporaryRedirect)
+			w.WriteHeader(redirectCode)
 			return
 		}
 		w.WriteHeader(200)
@@ -144,6 +145,8 @@ func cmdSigning(args []string) error {
 		cap.reqs = nil
 		if redirect {
 			redirectTo = srv.URL + "/redirected/elsewhere"
+			// 307/308 repeat method and body; 301/302/303 turn a POST into a bodyless GET
+			redirectCode = pick(r, []int{307, 307, 308, 301, 302, 303})
 		}
 		cap.mu.Unlock()
 		hdr := http.Header{"Content-Type": {"application/json"}}
